@@ -119,13 +119,6 @@ PKey._write_private_key = _spy_write
 
 
 # ---- helpers ---------------------------------------------------------------------------------------
-def pclass(p):
-    for lab, v in PASSPHRASES:
-        if v == p and type(v) is type(p):
-            return lab
-    return "other"
-
-
 def wrong_passphrases(pw):
     """(label, value) load passphrases that are not the one the file was written with."""
     out = [("missing", None), ("empty", "")]
@@ -311,7 +304,12 @@ def do_write(key, api, pw, path, umask, target):
 
 
 def work_private(item, acc):
-    _, kid, scn = item
+    _, kid, scns = item
+    for scn in scns:
+        one_private(kid, tuple(scn), acc)
+
+
+def one_private(kid, scn, acc):
     api, plab, um, target = scn
     kind = SPEC[kid][1]
     key = KEYS[kid]
@@ -535,8 +533,11 @@ def main(tier):
         items.append(("eq", kid))
         if SPEC[kid][2]:
             items.append(("bundled", kid))
-        for scn in write_scenarios(tier):
-            items.append(("private", kid, scn))
+        if SPEC[kid][1] == "ed25519":
+            items.append(("private", kid, write_scenarios(tier)[:2]))      # shows there is no writer
+            continue
+        for plab, _ in PASSPHRASES:
+            items.append(("private", kid, [x for x in write_scenarios(tier) if x[1] == plab]))
     ck.merge(core.pmap(items, work))
     ck.extra["keys"] = sorted(KEYS)
     ck.extra["bound"] = "%d keys, %d write scenarios per writable key" % (len(KEYS), len(write_scenarios(tier)))
@@ -555,7 +556,7 @@ def replay(rec):
     if r["mode"] == "public":
         work_public(("public", kid), acc)
     elif r["mode"] == "private":
-        work_private(("private", kid, tuple(r["scn"])), acc)
+        work_private(("private", kid, [tuple(r["scn"])]), acc)
     elif r["mode"] == "bundled":
         work_bundled(("bundled", kid), acc)
     else:
